@@ -19,6 +19,7 @@ Pairs == 1..3                       \* (profile, data) pairs with reports of dif
 Report(i) == [k \in 1..(i + 1) |-> <<"rep", i>>]
 Junk(n) == [k \in 1..n |-> <<"junk", n>>]
 Absent == << <<"ABSENT", 0>> >>
+IsDir  == << <<"DIRECTORY", 0>> >>     \* the output path names a directory
 
 VARIABLES file,     \* content of the output path, or Absent
           stdout,   \* what the last run printed
@@ -33,7 +34,9 @@ Write(old, new) ==
   ELSE new \o SubSeq(old, Len(new) + 1, Len(old))
 
 RunToFile(i) ==
-  /\ file' = Write(file, Report(i)) /\ stdout' = <<>> /\ exit' = 0
+  /\ IF file = IsDir
+       THEN file' = file /\ stdout' = <<>> /\ exit' = 1          \* cannot be written: a failure, nothing printed
+       ELSE file' = Write(file, Report(i)) /\ stdout' = <<>> /\ exit' = 0
   /\ hist' = Append(hist, [op |-> "validateToFile", pair |-> i])
 RunToStdout(i) ==
   /\ stdout' = Report(i) /\ exit' = 0 /\ UNCHANGED file
@@ -46,19 +49,30 @@ Remove ==
   /\ file # Absent /\ file' = Absent /\ UNCHANGED <<stdout, exit>>
   /\ hist' = Append(hist, [op |-> "remove", pair |-> 0])
 Overwrite(n) ==
+  /\ file # IsDir
   /\ file' = Junk(n) /\ UNCHANGED <<stdout, exit>>
   /\ hist' = Append(hist, [op |-> "overwrite", pair |-> n])
+\* the environment (or an earlier run that was killed) leaves other files next to the output path:
+\* OUT.tmp, OUT~, OUT.bak, OUT.part, .OUT.swp ... -- they are not the output path and change nothing
+Litter ==
+  /\ UNCHANGED <<file, stdout, exit>>
+  /\ hist' = Append(hist, [op |-> "litter", pair |-> 0])
+MkDir ==
+  /\ file = Absent /\ file' = IsDir /\ UNCHANGED <<stdout, exit>>
+  /\ hist' = Append(hist, [op |-> "mkdir", pair |-> 0])
 
 Next == /\ Len(hist) < MaxSteps
         /\ \/ \E i \in Pairs : RunToFile(i) \/ RunToStdout(i)
            \/ \E b \in BOOLEAN : RunFails(b)
            \/ Remove
            \/ \E n \in {0, 1, 6} : Overwrite(n)      \* empty, shorter than any report, longer than any report
+           \/ Litter \/ MkDir
 Spec == Init /\ [][Next]_vars
 
 LastOp == IF Len(hist) = 0 THEN "none" ELSE hist[Len(hist)].op
 \* after a run with an output path the file holds exactly that report, whatever it held before
-FileIsExactlyTheReport == LastOp = "validateToFile" => file = Report(hist[Len(hist)].pair)
+FileIsExactlyTheReport ==
+  LastOp = "validateToFile" => (file = Report(hist[Len(hist)].pair) /\ exit = 0) \/ (file = IsDir /\ exit # 0)
 StdoutIsExactlyTheReport == LastOp = "validateToStdout" => stdout = Report(hist[Len(hist)].pair) /\ exit = 0
 FailuresPrintNoReport == LastOp \in {"failToFile", "failToStdout"} => exit # 0 /\ stdout = <<>>
 =============================================================================
